@@ -839,7 +839,10 @@ void uninitialized_copy_pixels(View1 const& view1, View2 const& view2)
         copy_planarity_condition,
         !is_planar<View2>::value
         ? copy_planarity_condition::mixed_to_interleaved
-        : (is_planar<View1>::value
+        // the plane by plane copy needs raw planar pixel iterators on both sides: an adaptor over one (the step
+        // iterator of a flipped, subsampled or transposed planar view) is copied pixel by pixel like an interleaved source
+        : (is_planar<View1>::value && !is_iterator_adaptor<typename View1::x_iterator>::value
+            && !is_iterator_adaptor<typename View2::x_iterator>::value
             ? copy_planarity_condition::planar_to_planar
             : copy_planarity_condition::interleaved_to_planar)
     >;
